@@ -3,6 +3,8 @@
 ops (JSON-able lists)
   ["construct", "asc"|"desc", [[index, bool], ...] | None]
   ["set_mask", [[index, bool], ...]]
+  ["set_mask_np", [[index, bool], ...]]      the same dictionary with numpy.int64 keys and numpy.bool_ values (documented as accepted)
+  ["set_mask_invalid", kind, flag]           a dictionary that must be refused with TypeError *after* a valid entry {0: flag}; state unchanged
   ["low_pass", cutoff] / ["high_pass", cutoff]
   ["subtract", "scalar"|"vector"]
   ["json", [dropped optional keys]]          to_dict -> json.dumps -> json.loads -> drop keys -> from_dict
@@ -76,10 +78,19 @@ class Model:
                 ops.append(["construct", order, None])
                 for m in mask_menu(n, self.init_max_keys):
                     ops.append(["construct", order, m])
+                for m in mask_menu(n, 1)[1:]:
+                    ops.append(["construct", order, m, "np"])
             return ops
         ops: List[list] = []
         for m in mask_menu(n, self.max_keys):
             ops.append(["set_mask", m])
+        for m in mask_menu(n, 1)[1:]:
+            ops.append(["set_mask_np", m])
+        if n >= 2:
+            ops.append(["set_mask_np", [[0, True], [n - 1, True]]])
+        for kind in ("value-none-last", "value-float-last", "key-string-last", "key-float-last", "value-none-first", "not-a-dict"):
+            for flag in (True, False):
+                ops.append(["set_mask_invalid", kind, flag])
         fs = sorted(p[0] for p in self.pts)
         cuts = []
         for i, f in enumerate(fs):
@@ -119,8 +130,10 @@ class Model:
                 Z = np.array([p[1] for p in pts])
                 mask = None if m is None else {int(k): bool(v) for k, v in m}
                 snapshot = copy.deepcopy(mask)
+                if len(op) > 3 and op[3] == "np":
+                    mask = {np.int64(k): np.bool_(v) for k, v in mask.items()}
                 impl = DataSet(f, Z, mask=mask, label="lbl", path="some/file.csv")
-                if mask != snapshot:
+                if {int(k): bool(v) for k, v in (mask or {}).items()} != (snapshot or {}):
                     viol(f"caller-dict-mutated|construct|{order}", f"DataSet({order} data, mask=...) altered the caller's mask dictionary",
                          f"before={snapshot} after={mask}")
                 flags = [bool((snapshot or {}).get(i, False)) for i in range(len(pts))]
@@ -142,6 +155,21 @@ class Model:
                     for k, v in snapshot.items():
                         if 0 <= k < len(ref.pts):
                             ref.pts[k][2] = v
+            elif kind == "set_mask_np":
+                impl.set_mask({np.int64(k): np.bool_(v) for k, v in op[1]})
+                for k, v in op[1]:
+                    if 0 <= int(k) < len(ref.pts):
+                        ref.pts[int(k)][2] = bool(v)
+            elif kind == "set_mask_invalid":
+                n_ = len(ref.pts)
+                bad = {"value-none-last": {0: bool(op[2]), n_ - 1 if n_ > 1 else 1: None}, "value-float-last": {0: bool(op[2]), 1: 1.0},
+                       "key-string-last": {0: bool(op[2]), "1": True}, "key-float-last": {0: bool(op[2]), 1.5: True},
+                       "value-none-first": {1: None, 0: bool(op[2])}, "not-a-dict": [(0, bool(op[2]))]}[op[1]]
+                try:
+                    impl.set_mask(bad)
+                    viol(f"set_mask|accepted-invalid|{op[1]}", f"set_mask({bad!r}) was accepted although the documentation requires integer keys and boolean values")
+                except TypeError:
+                    pass   # refused as documented; the state must be unchanged (checked below against the unchanged reference)
             elif kind == "low_pass":
                 impl.low_pass(float(op[1]))
                 for t in ref.pts:
@@ -290,6 +318,11 @@ class Model:
             df = ds.to_dataframe(masked=flag)
             if len(df) != len(ef) or [float(x) for x in df[df.columns[0]]] != ef:
                 viol(f"observer|to_dataframe(masked={flag})", "data frame rows differ from the reference points")
+        for flag in (False, True):
+            a = [float(x) for x in ds.get_frequencies(masked=np.bool_(flag))]
+            b = [float(x) for x in ds.get_frequencies(masked=flag)]
+            if a != b:
+                viol("observer|masked-argument-as-numpy-bool", f"get_frequencies(masked=numpy.bool_({flag})) differs from get_frequencies(masked={flag})", f"{a} vs {b}")
         if ds.get_num_points(masked=None) != len(exp_f):
             viol("observer|get_num_points(masked=None)", "total point count differs")
         n_un, n_ma = ds.get_num_points(masked=False), ds.get_num_points(masked=True)
